@@ -164,6 +164,12 @@ class Mini:
             return out
         if isinstance(e, ast.Call):
             return self._call(e, env)
+        if isinstance(e, ast.Attribute):
+            import types as _types
+            recv = self.ev(e.value, env)
+            if isinstance(recv, _types.SimpleNamespace) and hasattr(recv, e.attr):
+                return getattr(recv, e.attr)
+            raise NoEval(f"attribute .{e.attr}")
         raise NoEval(type(e).__name__)
 
     def _comp(self, gens, i, env, emit):
@@ -292,7 +298,8 @@ class Mini:
             elif isinstance(st, ast.AugAssign):
                 cur = self.ev(st.target, env)
                 v = self.ev(st.value, env)
-                ops = {ast.Add: lambda: cur + v, ast.Sub: lambda: cur - v, ast.Mult: lambda: cur * v, ast.BitOr: lambda: cur | v}
+                ops = {ast.Add: lambda: cur + v, ast.Sub: lambda: cur - v, ast.Mult: lambda: cur * v, ast.BitOr: lambda: cur | v,
+                       ast.Mod: lambda: cur % v, ast.FloorDiv: lambda: cur // v, ast.BitAnd: lambda: cur & v}
                 if type(st.op) not in ops:
                     raise NoEval("augmented assignment")
                 self._bind(st.target, ops[type(st.op)](), env)
